@@ -272,6 +272,57 @@ def _chunk(arg):
     return out
 
 
+def independence_probe(rep, n):
+    """two game objects alive at once never share state: what happens to one is invisible in the other (an inventory must not
+    exceed ITS limit because another one was filled; a wallet's gold, a relationship's topics, a shop's stock likewise)"""
+    from bardic.stdlib.economy import Wallet, Shop
+    from bardic.stdlib.inventory import Inventory
+    from bardic.stdlib.relationship import Relationship
+    bad = 0
+    def see(o):
+        d = {k: (sorted(v) if isinstance(v, set) else copy.deepcopy(v)) for k, v in vars(o).items()}
+        for p_ in ("gold", "trust", "comfort", "openness", "current_weight"):
+            if hasattr(type(o), p_):
+                d["." + p_] = getattr(o, p_)
+        return d
+    for idx in range(n):
+        r = rng_for(rep.seed, "independence", idx)
+        kind = r.choice(["inv", "inv", "wallet", "rel", "shop"])
+        with quiet():
+            if kind == "inv":
+                a, b = Inventory(r.randint(3, 8)), Inventory(r.randint(30, 60))
+                def act():
+                    for _ in range(r.randint(1, 4)):
+                        b.add({"name": r.choice(NAMES), "weight": r.randint(5, 20), "value": r.randint(0, 9)})
+            elif kind == "wallet":
+                a, b = Wallet(r.randint(0, 9)), Wallet(r.randint(0, 9))
+                def act():
+                    b.earn(r.randint(1, 50)); b.spend(r.randint(0, 5))
+            elif kind == "rel":
+                a, b = Relationship("Ann", 50, 50, 0), Relationship("Bo", 50, 50, 0)
+                def act():
+                    b.add_trust(r.randint(-40, 40)); b.topics_discussed.add(r.choice(["past", "work"]))
+                    if hasattr(b, "discuss_topic"):
+                        b.discuss_topic("family")
+            else:
+                stock = [{"name": "Rope", "weight": 1, "value": 10}]
+                a, b = Shop(copy.deepcopy(stock)), Shop(copy.deepcopy(stock))
+                def act():
+                    b.set_discount(0.5); b.items.append({"name": "Gem", "weight": 1, "value": 30})
+            before = see(a)
+            act()
+            after = see(a)
+        if before != after:
+            bad += 1
+            rep.violations.append({"cls": None, "family": "c20-independence", "what": f"two {kind} objects share state: an operation on one changed the other: "
+                                   + json.dumps(first_diff(before, after, ""), default=str)[:200], "id": f"s{rep.seed}-indep-{idx}"})
+        elif kind == "inv" and a.current_weight > a.max_weight:
+            bad += 1
+            rep.violations.append({"cls": None, "family": "c20-independence", "what": "an inventory exceeds its weight limit", "id": f"s{rep.seed}-indep-{idx}"})
+    rep.coverage.setdefault("families", {})["c20-independence"] = {"cases": n, "failing": bad}
+    rep.coverage["evaluations"] = rep.coverage.get("evaluations", 0) + n
+
+
 def stdlib_family(rep, n_cases, n_ops, nproc=16):
     chunk = max(1, n_cases // (nproc * 2))
     idxs = list(range(n_cases))
